@@ -31,6 +31,7 @@ pub fn dispatch(args: &[String]) -> i32 {
         "C03" | "C04" => crate::sched::check(&args[0], &tier),
         "C16" => crate::examples::check(&tier),
         "replay" => crate::replay::replay(&args[1..]),
+        "sched-worker" => crate::sched::worker_main(&args[1..]),
         "selfcheck" => selfcheck(),
         x => { eprintln!("unknown command {}", x); 2 }
     }
